@@ -13,9 +13,47 @@ from .core import SV, NONEV, const, Unsupported, PyRaise, Infeasible
 from . import pymodel as pm
 
 I = z3.IntSort()
+PYDIV = z3.Function('pydiv', I, I, I)
+PYMOD = z3.Function('pymod', I, I, I)
+PYMUL = z3.Function('pymul', I, I, I)
+
+
+def _mul_facts(b, d):
+    """Linear instances of facts about the product b*d (true of multiplication)."""
+    m = PYMUL(b, d)
+    return [
+        z3.Implies(d == 0, m == 0),
+        z3.Implies(d == 1, m == b),
+        z3.Implies(d == -1, m == -b),
+        z3.Implies(z3.And(b > 0, d >= 1), m >= b),
+        z3.Implies(z3.And(b > 0, d <= -1), m <= -b),
+        z3.Implies(z3.And(b < 0, d >= 1), m <= b),
+        z3.Implies(z3.And(b < 0, d <= -1), m >= -b),
+        z3.Implies(b == 0, m == 0),
+    ]
+
+
+def _mentions(a, b, vars_):
+    names = {str(v) for v in vars_}
+    if not names:
+        return False
+    todo = [a, b]
+    seen = set()
+    while todo:
+        t = todo.pop()
+        if t.get_id() in seen:
+            continue
+        seen.add(t.get_id())
+        if z3.is_const(t) and str(t) in names:
+            return True
+        todo.extend(t.children())
+    return False
 
 
 class ExprMixin:
+    binders = ()
+    polarity = 0
+
     def eval(self, e) -> SV:
         m = getattr(self, 'e_' + type(e).__name__, None)
         if m is None:
@@ -134,6 +172,9 @@ class ExprMixin:
             if self.term_mode:
                 raise Unsupported(f'None.{attr} in spec')
             self.raise_(AttributeError, f'None.{attr}')
+        if k.name in ('ReMatch', 'ReGroupDict'):
+            from .engine import BoundSym
+            return const(BoundSym(base, ('builtin', attr), None))
         if k.is_obj:
             fk = self.field_kind(k.name, attr)
             if fk is not None:
@@ -188,6 +229,13 @@ class ExprMixin:
         return v
 
     def e_UnaryOp(self, e):
+        if isinstance(e.op, ast.Not) and self.term_mode:
+            self.polarity = -self.polarity
+            try:
+                v = self.eval(e.operand)
+                return SV(BOOL, z3.Not(self.truthy(v)))
+            finally:
+                self.polarity = -self.polarity
         v = self.eval(e.operand)
         if isinstance(e.op, ast.Not):
             return SV(BOOL, z3.Not(self.truthy(v)))
@@ -204,7 +252,12 @@ class ExprMixin:
         raise Unsupported(f'unary {type(e.op).__name__} on {v.kind}')
 
     def e_IfExp(self, e):
-        c = self.truthy(self.eval(e.test))
+        saved = self.polarity
+        self.polarity = 0
+        try:
+            c = self.truthy(self.eval(e.test))
+        finally:
+            self.polarity = saved
         if self.term_mode:
             a, b = self.eval(e.body), self.eval(e.orelse)
             if a.kind == b.kind and a.kind != CONST:
@@ -230,6 +283,34 @@ class ExprMixin:
         b = self.eval(e.right)
         return self.binop(type(e.op).__name__, a, b)
 
+    def mul_terms(self, x, y):
+        """x*y; symbolic*symbolic is abstracted by PYMUL with linear facts."""
+        p = self.p
+        xz, yz = z3.simplify(x), z3.simplify(y)
+        if z3.is_int_value(xz) or z3.is_int_value(yz):
+            return xz * yz
+        if self.binders and _mentions(xz, yz, [v for b_ in self.binders for v in b_['vars']]):
+            return xz * yz
+        key = ('mul', str(xz), str(yz))
+        cache = p.__dict__.setdefault('_divmod', {})
+        if key in cache:
+            return cache[key]
+        m = PYMUL(xz, yz)
+        p.assume(m == PYMUL(yz, xz))
+        p.__dict__.setdefault('exact_facts', []).append(m == xz * yz)
+        for b, d in ((xz, yz), (yz, xz)):
+            for fact in _mul_facts(b, d):
+                p.assume(fact)
+            terms = p.__dict__.setdefault('_divterms', {}).setdefault(str(b), [])
+            for (a2, q2, r2) in terms:
+                dd = d - q2
+                p.assume(PYMUL(b, d) - PYMUL(b, q2) == PYMUL(b, dd))
+                for fact in _mul_facts(b, dd):
+                    p.assume(fact)
+            terms.append((PYMUL(b, d), d, z3.IntVal(0)))
+        cache[key] = m
+        return m
+
     def divmod_terms(self, a, b):
         """Fresh q, r with a == b*q + r and Python's floor semantics."""
         p = self.p
@@ -239,13 +320,35 @@ class ExprMixin:
             return z3.IntVal(q), z3.IntVal(r)
         key = ('divmod', str(az), str(bz))
         cache = p.__dict__.setdefault('_divmod', {})
+        q, r = PYDIV(az, bz), PYMOD(az, bz)
+        numeral = z3.is_int_value(bz)
+        # symbolic divisor: the product b*q is abstracted by the uninterpreted
+        # PYMUL(b, q) with *linear* instances of the ring/order axioms (below);
+        # the exact nonlinear fact is kept aside for confirming counter-models.
+        prod = bz * q if numeral else PYMUL(bz, q)
+        defs = z3.And(az == prod + r,
+                      z3.Implies(bz > 0, z3.And(0 <= r, r < bz)),
+                      z3.Implies(bz < 0, z3.And(bz < r, r <= 0)))
+        if self.binders and _mentions(az, bz, [v for b_ in self.binders for v in b_['vars']]):
+            # under a quantifier: the definition travels with the quantified body
+            if not numeral:
+                defs = z3.And(defs, PYMUL(bz, q) == bz * q)
+            self.binders[-1]['defs'].append(defs)
+            return q, r
         if key in cache:
             return cache[key]
-        q = p.fresh('q', I)
-        r = p.fresh('r', I)
-        p.assume(a == b * q + r)
-        p.assume(z3.Implies(b > 0, z3.And(0 <= r, r < b)))
-        p.assume(z3.Implies(b < 0, z3.And(b < r, r <= 0)))
+        p.assume(defs)
+        if not numeral:
+            p.__dict__.setdefault('exact_facts', []).append(PYMUL(bz, q) == bz * q)
+            terms = p.__dict__.setdefault('_divterms', {}).setdefault(str(bz), [])
+            for fact in _mul_facts(bz, q):
+                p.assume(fact)
+            for (a2, q2, r2) in terms:
+                d = q - q2
+                p.assume(PYMUL(bz, q) - PYMUL(bz, q2) == PYMUL(bz, d))
+                for fact in _mul_facts(bz, d):
+                    p.assume(fact)
+            terms.append((az, q, r))
         cache[key] = (q, r)
         return q, r
 
@@ -260,7 +363,7 @@ class ExprMixin:
             if op == 'Sub':
                 return SV(INT, x - y)
             if op == 'Mult':
-                return SV(INT, x * y)
+                return SV(INT, self.mul_terms(x, y))
             if op in ('Mod', 'FloorDiv'):
                 if not self.term_mode and self.p.choose(y == 0):
                     self.raise_(ZeroDivisionError)
@@ -349,6 +452,13 @@ class ExprMixin:
 
     # ------------------------------------------------------------ comparison
     def e_Compare(self, e):
+        if self.term_mode and self.polarity:
+            saved = self.polarity
+            self.polarity = 0
+            try:
+                return self.e_Compare(e)
+            finally:
+                self.polarity = saved
         left = self.eval(e.left)
         result = None
         for i, (op, rhs) in enumerate(zip(e.ops, e.comparators)):
